@@ -191,8 +191,10 @@ func runC06(rt *rapid.T, allowCtl bool) {
 		if f.IsData() {
 			peerSent = append(peerSent, sentData{f, time.Now(), role, token})
 		}
-		pmu.Unlock()
+		// the write happens under the same lock as the ledger entry: two policies that fire at the
+		// same virtual instant (two "late" replies) must be recorded in the order they hit the wire
 		_ = p.Send(f)
+		pmu.Unlock()
 	}
 	after := func(d time.Duration, fn func()) {
 		if d == 0 {
@@ -466,7 +468,14 @@ func runC06(rt *rapid.T, allowCtl bool) {
 				gi++
 			}
 			if gi >= len(got) {
-				fail("handler %d never received %v (%s of token %d) although no sender was waiting for it", hi, wsd.f, wsd.role, wsd.token)
+				var gl, wl []string
+				for _, g := range got {
+					gl = append(gl, fmt.Sprintf("%x@+%v", g.hdr, g.at.Sub(t0)))
+				}
+				for _, x := range wantHandlers {
+					wl = append(wl, fmt.Sprintf("%x(%s of token %d, sent +%v)", x.f.Header(), x.role, x.token, x.at.Sub(t0)))
+				}
+				fail("handler %d never received %v (%s of token %d) although no sender was waiting for it\n handler got (in order): %v\n expected at the handlers (in the order the peer sent them): %v", hi, wsd.f, wsd.role, wsd.token, gl, wl)
 			}
 			gi++
 		}
